@@ -77,6 +77,10 @@ func (w *dnsWorld) setup(o dnsSetup) bool {
 	for i := 0; i < nUps; i++ {
 		u := &dnsUp{idx: i, tag: fmt.Sprintf("u%d", i), scheme: o.schemes[T.Choose(len(o.schemes))]}
 		u.addr = netip.MustParseAddrPort(fmt.Sprintf("10.9.0.%d:53", i+1))
+		if w.mode == dnsModeC07 && i%2 == 0 {
+			// configured by name: resolved lazily by the first questions routed to it
+			u.host = fmt.Sprintf("dns-%c.test", 'a'+i)
+		}
 		w.ups = append(w.ups, u)
 		tags = append(tags, u.tag)
 	}
@@ -106,7 +110,7 @@ func (w *dnsWorld) setup(o dnsSetup) bool {
 func (w *dnsWorld) upsString() string {
 	r := ""
 	for _, u := range w.ups {
-		r += fmt.Sprintf("%s=%s://%s ", u.tag, u.scheme, u.addr)
+		r += fmt.Sprintf("%s=%s://%s ", u.tag, u.scheme, u.hostPort())
 	}
 	return r
 }
@@ -315,7 +319,6 @@ func dnsScenarioC09(w *dnsWorld) {
 	}
 	w.checkCoalescing()
 	w.checkCacheContents()
-	w.fwdsAtReset = len(w.fwds) // forwarders created later (by a late background refresh) stay cached, legitimately open
 	w.env("reset", func() { _ = w.ctl.ResetDnsForwarders() })
 	// queries still waiting for an upstream (e.g. a background refresh) end by their timeouts
 	s.Quiesce(func() bool { return w.envTasks == 0 && w.fwdInFlight() == 0 }, 0, 30*time.Second)
